@@ -64,9 +64,17 @@ def chans(mode):
 
 # ------------------------------------------------------------------ packing
 
+# +-inf are sample values like any other (the operations of C15 only copy values): they travel to
+# the model as the otherwise unused extreme codes
+_PF_INF = 999999
+_PH_INF = 2047
+
+
 def _pf(v):
     if np.isnan(v):
         return 1
+    if np.isinf(v):
+        return 2 * (_PF_INF if v > 0 else -_PF_INF)
     k = float(v) * 4
     assert k == int(k) and abs(k) < 10 ** 6, v
     return 2 * int(k)
@@ -75,6 +83,8 @@ def _pf(v):
 def _ph(v):
     if np.isnan(v):
         return 0
+    if np.isinf(v):
+        return (_PH_INF if v > 0 else -_PH_INF) + 2048
     k = float(v) * 4
     assert k == int(k) and abs(k) < 2048, v
     return int(k) + 2048
@@ -114,10 +124,11 @@ def unpack(mode, h, w, data):
             elif mode == "RGBA":
                 a[r, cc] = (z % 256, (z // 256) % 256, (z // 65536) % 256, z // 16777216)
             elif mode in ("F32", "F64"):
-                a[r, cc] = np.nan if z == 1 else (z // 2) / 4.0
+                a[r, cc] = np.nan if z == 1 else (np.inf if z // 2 == _PF_INF else -np.inf if z // 2 == -_PF_INF else (z // 2) / 4.0)
             elif mode == "F16x3":
                 es = (z % 4096, (z // 4096) % 4096, z // 16777216)
-                a[r, cc] = [np.nan if e == 0 else (e - 2048) / 4.0 for e in es]
+                a[r, cc] = [np.nan if e == 0 else (np.inf if e - 2048 == _PH_INF else -np.inf if e - 2048 == -_PH_INF
+                                                   else (e - 2048) / 4.0) for e in es]
             else:
                 a[r, cc] = z
     return a
@@ -286,9 +297,9 @@ def rand_pixels(rng, mode, h, w, pattern, allow_neg=False):
             elif mode == "RGBA":
                 a[r, cc] = [rng.randint(0, 255) for _ in range(3)] + [0 if u else rng.choice((1, 128, 255, rng.randint(1, 255)))]
             elif mode in ("F32", "F64"):
-                a[r, cc] = np.nan if u else rng.randint(-200, 200) / 4.0
+                a[r, cc] = np.nan if u else (rng.choice((np.inf, -np.inf)) if rng.random() < 0.06 else rng.randint(-200, 200) / 4.0)
             elif mode == "F16x3":
-                v = [rng.randint(-200, 200) / 4.0 for _ in range(3)]
+                v = [(rng.choice((np.inf, -np.inf)) if rng.random() < 0.04 else rng.randint(-200, 200) / 4.0) for _ in range(3)]
                 if u:
                     k = rng.choice((1, 2, 3, 3, 3))      # partially or fully NaN
                     for j in rng.sample(range(3), k):
